@@ -1,6 +1,7 @@
 package main
 
 import (
+	"fmt"
 	"go/ast"
 	"go/token"
 	"sort"
@@ -20,6 +21,7 @@ func factsMore(x *extractor) {
 	x.factsUnreach()
 	x.factsAds()
 	x.factsVerify()
+	x.factsProto()
 }
 
 const netceptorGo = "pkg/netceptor/netceptor.go"
@@ -948,4 +950,140 @@ func (x *extractor) factsVerify() {
 	x.set("rvf_name_compare", nameCmp)
 	x.set("tls_client_cfg", clientCfg)
 	x.set("tls_listener_expected", listener)
+}
+
+// ---------------------------------------------------------------- C07 / C11: runProtocol
+
+func (x *extractor) factsProto() {
+	emptyGuard, adNil, pingGuard, costGuard, emptyID, removeAll := false, false, false, false, false, false
+	dispatch := "unknown"
+	if fd := x.fn(netceptorGo, "Netceptor", "runProtocol"); fd != nil {
+		// the `case data := <-ci.ReadChan:` clause
+		ast.Inspect(fd, func(n ast.Node) bool {
+			cc, ok := n.(*ast.CommClause)
+			if !ok || cc.Comm == nil || !strings.Contains(x.str(cc.Comm), "<-ci.ReadChan") {
+				return true
+			}
+			// statements before `msgType := data[0]`
+			for _, st := range cc.Body {
+				if x.str(st) == "msgType := data[0]" {
+					break
+				}
+				if is, ok := st.(*ast.IfStmt); ok {
+					c := strings.ReplaceAll(x.str(is.Cond), " ", "")
+					if (c == "len(data)==0" || c == "len(data)<1") && strings.Contains(x.str(is.Body), "continue") {
+						emptyGuard = true
+					}
+				}
+			}
+			var est, unest []string
+			ast.Inspect(cc, func(m ast.Node) bool {
+				switch v := m.(type) {
+				case *ast.SwitchStmt:
+					if x.str(v.Tag) == "msgType" {
+						for _, c := range v.Body.List {
+							cl := c.(*ast.CaseClause)
+							if len(cl.List) == 0 {
+								est = append(est, "default")
+							} else {
+								est = append(est, x.str(cl.List[0]))
+							}
+						}
+					}
+				case *ast.IfStmt:
+					c := x.str(v.Cond)
+					if strings.HasPrefix(c, "msgType == ") {
+						unest = append(unest, strings.TrimPrefix(c, "msgType == "))
+					}
+					// established: non-positive costs refused before handleRoutingUpdate
+					if strings.Contains(c, "hasNonPositiveCost") && strings.Contains(x.str(v.Body), "continue") {
+						costGuard = true
+					}
+					if strings.ReplaceAll(c, " ", "") == `remoteNodeID==""` && strings.Contains(x.str(v.Body), "sendAndLogConnectionRejection") {
+						emptyID = true
+					}
+				}
+				return true
+			})
+			dispatch = "established:" + strings.Join(est, ",") + ";unestablished:" + strings.Join(unest, ",")
+			return false
+		})
+		// every select that can leave the establishment block after registration must remove the connection
+		good, total := 0, 0
+		ast.Inspect(fd, func(n ast.Node) bool {
+			sel, ok := n.(*ast.SelectStmt)
+			if !ok {
+				return true
+			}
+			direct, ciDone := false, false
+			for _, c := range sel.Body.List {
+				cc := c.(*ast.CommClause)
+				if cc.Comm == nil {
+					continue
+				}
+				cs := x.str(cc.Comm)
+				if cs == "initDoneChan <- true" || cs == "s.sendRouteFloodChan <- 0" || cs == "s.updateRoutingTableChan <- 0" {
+					direct = true
+				}
+				if cs == "<-ci.Context.Done()" {
+					ciDone = true
+				}
+			}
+			if !direct || !ciDone {
+				return true
+			}
+			for _, c := range sel.Body.List {
+				cc := c.(*ast.CommClause)
+				if cc.Comm != nil && strings.Contains(x.str(cc.Comm), "Done()") {
+					total++
+					b := ""
+					for _, st := range cc.Body {
+						b += x.str(st) + ";"
+					}
+					if strings.Contains(b, "s.removeConnection(remoteNodeID)") && strings.Contains(b, "return") {
+						good++
+					}
+				}
+			}
+			return true
+		})
+		removeAll = total == 6 && good == 6
+		x.set("adm_exit_selects", fmt.Sprintf("%d/%d", good, total))
+	}
+	if fd := x.fn(netceptorGo, "Netceptor", "handleServiceAdvertisement"); fd != nil {
+		for _, st := range fd.Body.List {
+			if is, ok := st.(*ast.IfStmt); ok && strings.ReplaceAll(x.str(is.Cond), " ", "") == "si.ServiceAdvertisement==nil" &&
+				strings.Contains(x.str(is.Body), "return") {
+				adNil = true
+			}
+			if strings.Contains(x.str(st), "si.NodeID") {
+				break
+			}
+		}
+	}
+	if fd := x.fn(netceptorGo, "Netceptor", "handlePing"); fd != nil && len(fd.Body.List) > 0 {
+		if is, ok := fd.Body.List[0].(*ast.IfStmt); ok && strings.ReplaceAll(x.str(is.Cond), " ", "") == `md.FromService=="ping"` &&
+			strings.Contains(x.str(is.Body), "return nil") {
+			pingGuard = true
+		}
+	}
+	// the helper must really test every cost for <= 0
+	if costGuard {
+		costGuard = false
+		if fd := x.fn(netceptorGo, "routingUpdate", "hasNonPositiveCost"); fd != nil {
+			b := strings.ReplaceAll(x.str(fd.Body), " ", "")
+			if strings.Contains(b, "range ri.Connections") || strings.Contains(b, "rangeri.Connections") {
+				if strings.Contains(b, "<=0") && strings.Contains(b, "returntrue") {
+					costGuard = true
+				}
+			}
+		}
+	}
+	x.set("proto_empty_guard", emptyGuard)
+	x.set("proto_ad_nil_guard", adNil)
+	x.set("proto_ping_guard", pingGuard)
+	x.set("proto_cost_guard", costGuard)
+	x.set("adm_empty_id_guard", emptyID)
+	x.set("adm_remove_on_all_exits", removeAll)
+	x.set("proto_dispatch", dispatch)
 }
